@@ -13,6 +13,8 @@
   time — no bounds.
 -/
 import Upnp.Model.C12Cfg
+import Upnp.Model.C12ServiceMax
+import Upnp.Gen.C12ServiceTypes
 import Upnp.Lemmas.C12Ops
 import Upnp.Lemmas.C12Sub
 import Upnp.Lemmas.C12Renew
@@ -34,6 +36,27 @@ theorem gen_shapes : genCfg.skipStale = false ∧ genCfg.delEarly = false ∧ ge
 
 /-- the renewal margin is positive and shorter than the timeout asked for -/
 theorem gen_constants : 0 < genCfg.tol ∧ genCfg.tol < genCfg.subTimeout := by decide
+
+/-- **service_tables_contiguous** ("all … of its profile's services" starts here): for every profile class
+    (DmrDevice, DmsDevice, IgdDevice, PrinterDevice, ConnectionManagerMixin) and every service alias, the set of
+    service types extracted from `_SERVICE_TYPES` is exactly `prefix:1 … prefix:n` — no gap, no missing top
+    version, no missing or extra alias — with `n` the documented maximum (`Model/C12ServiceMax.lean`).
+    Dropping or adding a version or an alias in the source changes `Gen.C12ServiceTypes` and breaks this. -/
+theorem service_tables_contiguous :
+    Gen.C12ServiceTypes.serviceTypes = serviceMax.map (fun r => (r.1, r.2.1, r.2.2.1, upTo r.2.2.2)) := by decide
+
+/-- the same for `DEVICE_TYPES`: every device version `1 … n` of the profile's device type is accepted -/
+theorem device_tables_contiguous :
+    Gen.C12ServiceTypes.deviceTypes = deviceMax.map (fun r => (r.1, r.2.1, upTo r.2.2)) := by decide
+
+/-- spelled out: no version below the maximum is missing from any table -/
+theorem service_versions_no_gap :
+    ∀ r ∈ Gen.C12ServiceTypes.serviceTypes, ∀ v, 1 ≤ v → v ≤ r.2.2.2.length → v ∈ r.2.2.2 := by
+  intro r hr v h1 h2
+  rw [service_tables_contiguous] at hr
+  obtain ⟨q, _, rfl⟩ := List.mem_map.1 hr
+  simp only [upTo, List.length_map, List.length_range, List.mem_map, List.mem_range] at h2 ⊢
+  exact ⟨v - 1, by omega, by omega⟩
 
 /-! ### reachable states -/
 
